@@ -869,3 +869,47 @@ func spilledParam(addr ssa.Value) *ssa.Parameter {
 	}
 	return prm
 }
+
+// RelEdge builds an EdgeFilter for the hypothetical relation rel (-1: x<y, 0: x==y, +1: x>y) between the two
+// values selected by isX and isY: at every If that compares such a pair, only the consistent outcome is followed.
+func RelEdge(isX, isY func(ssa.Value) bool, rel int) EdgeFilter {
+	return func(from *ssa.BasicBlock, succ int) bool {
+		iff, ok := from.Instrs[len(from.Instrs)-1].(*ssa.If)
+		if !ok {
+			return true
+		}
+		bo, ok := iff.Cond.(*ssa.BinOp)
+		if !ok {
+			return true
+		}
+		r := rel
+		switch {
+		case isX(bo.X) && isY(bo.Y):
+		case isX(bo.Y) && isY(bo.X):
+			r = -rel
+		default:
+			return true
+		}
+		var truth bool
+		switch bo.Op {
+		case token.GTR:
+			truth = r > 0
+		case token.GEQ:
+			truth = r >= 0
+		case token.LSS:
+			truth = r < 0
+		case token.LEQ:
+			truth = r <= 0
+		case token.EQL:
+			truth = r == 0
+		case token.NEQ:
+			truth = r != 0
+		default:
+			return true
+		}
+		if truth {
+			return succ == 0
+		}
+		return succ == 1
+	}
+}
